@@ -153,6 +153,9 @@ def cases(chk):
     for k in range(0, 8):
         yield "crash", {"kill": k, "torn": 0, "fresh": 0}
         yield "crash", {"kill": k, "torn": 1, "fresh": 0}
+        # the operation FAILS instead (disk full, quota, I/O error): the exception unwinds through the save's own handlers
+        yield "crash", {"kill": k, "torn": 0, "fresh": 0, "fail": 1, "via": "profile" if k % 2 else "manager"}
+        yield "crash", {"kill": k, "torn": 1, "fresh": 0, "fail": 1, "via": "manager" if k % 2 else "profile", "oldfmt": "keyval" if k % 3 == 0 else "json"}
         yield "crash", {"kill": k, "torn": 0, "fresh": 1}
     for _ in range(chk.scale(250, 8000)):
         d = {}
@@ -411,7 +414,7 @@ def run_crash(chk, case):
     if pid == 0:
         code = 0
         try:
-            with Tracer(final, kill_at=case["kill"], torn=bool(case["torn"])):
+            with Tracer(final, kill_at=case["kill"], torn=bool(case["torn"]), fail=bool(case.get("fail"))):
                 if case.get("via") == "profile":
                     from yowsup.profile.profile import YowProfile
                     YowProfile(name).write_config(new)
@@ -442,7 +445,7 @@ def run_crash(chk, case):
     if killed and not case["torn"] and mcls is not None and cls != mcls:
         fails.append(corr("crash:file-state", "killed before file operation #%d (%s profile): config file is %s, model says %s"
                           % (case["kill"], "fresh" if case["fresh"] else "existing", cls, mcls)))
-    if code == 9 and mcls is not None and int(out.split()[0]) > case["kill"]:
+    if code == 9 and mcls is not None and int(out.split()[0]) > case["kill"] and not case.get("fail"):
         fails.append(corr("crash:child", "save raised in the child although the traced save did not"))
     # oracle
     try:
@@ -460,7 +463,14 @@ def run_crash(chk, case):
         ok = got == want_new or (got == want_old and not case["fresh"])
         if not killed and code == 0:
             ok = got == want_new
-    if code == 9:
+    if case.get("fail"):
+        # the operation failed (disk full) and the save went on as it is written: an exception is the right answer; whatever it did afterwards,
+        # the profile loads as the previous or as the new configuration
+        if not ok and not (bool(case["fresh"]) and (isinstance(loaded, Exception) or loaded is None)):
+            fails.append(oracle("C19:failed-write-not-atomic", "save%s whose file operation #%d fails (no space left on device%s; %s%s profile): the profile now loads as %s (file: %s)"
+                                % (" through YowProfile.write_config" if case.get("via") == "profile" else "", case["kill"], ", half of the data written" if case["torn"] else "",
+                                   "fresh" if case["fresh"] else "existing", " key=value" if keyval else "", str(got)[:200], cls)))
+    elif code == 9:
         fails.append(oracle("C19:save-raises" + (":fresh-profile" if case["fresh"] else ""),
                             "saving the configuration of a %s profile raises" % ("never-used" if case["fresh"] else "used")))
     elif not ok:
